@@ -381,7 +381,8 @@ class Graph:
         connections = set()
         for n2, v2 in nodes.items():
             if filter_edges:  # Also filter edges that only exist between vertices in `nodes`
-                for n1, i in v2.inputs.items():
+                for i in v2.inputs.values():
+                    n1 = i.output_node.name  # name of the sender, not the (possibly shadowed) input name
                     if n1 in nodes:
                         connections.add((n1, n2))
             else:  # Only filters vertices, meaning vertices may have more edges than connections in nodes.
@@ -1631,7 +1632,8 @@ class EpisodeRecord:
                     "so the graph cannot be reconstructed."
                 )
             if filter_connections:  # Also filter connections that only exist between nodes in `nodes`
-                for n1, i in v2.inputs.items():
+                for i in v2.inputs.values():
+                    n1 = i.output_node.name  # name of the sender, not the (possibly shadowed) input name
                     if n1 in nodes:
                         connections.add((n1, n2))
             else:  # Only filters nodes, meaning self.nodes may have more connections than nodes.
